@@ -39,6 +39,17 @@ theorem Exec.deadlock_iff_needs_in_range :
       ∃ th ∈ e.threads.threads, th.isRunnable = true :=
   ⟨_, LoomVerif.Exec.deadlock_iff_needs_in_range⟩
 
+/-- `schedule` itself never produces such a state: the thread it activates is in the thread table (whose length
+it keeps).  The code indexes the table with the chosen id (`self.threads.active()`), so a path entry that names a
+thread that does not exist — possible only in a hand-made path / checkpoint — panics ("index out of bounds"); the
+twin fails with `.internal 31`.  Entries pushed by `schedule` on a traversed path always name an existing thread
+(`Exec.choice_post` in `Props/C01.lean`). -/
+theorem Exec.schedule_active_in_range {e e' : Exec} {pk b : Bool} (h : e.schedule pk = .ok (e', b)) :
+    e'.threads.threads.length = e.threads.threads.length ∧
+    ∀ nid, e'.threads.active = some nid → nid < e'.threads.threads.length := by
+  have hl := LoomVerif.Exec.schedule_length h
+  exact ⟨hl, fun nid hn => by rw [hl]; exact LoomVerif.Exec.schedule_active_lt h hn⟩
+
 /-- Under the same hypotheses, with no runnable or yielded thread, `schedule` ends the execution
 normally (`.ok (_, true)`, no active thread) iff all threads are terminated. -/
 theorem Exec.schedule_no_thread {e : Exec} {pk : Bool} {p1 : Path}
